@@ -218,7 +218,8 @@ fn world_search(prop: &str, cases: usize, seed: u64, end: Instant, out: &str) ->
         mark(out, &case.to_text());
         let r = catch_unwind(AssertUnwindSafe(|| case.run()));
         let fail = match r {
-            Ok(Some((p, w))) if p == prop => Some(w),
+            // (iteration under live guards belongs to C17's quantifier as much as to C08's)
+            Ok(Some((p, w))) if p == prop || (prop == "C17" && p == "C08") => Some(w),
             Ok(_) => None,
             Err(p) => {
                 // a panic outside the guarded calls (e.g. while dropping the world): the typed-map property forbids it
@@ -233,7 +234,7 @@ fn world_search(prop: &str, cases: usize, seed: u64, end: Instant, out: &str) ->
                 progress = false;
                 for k in 0..cur.len() {
                     let c = cur.without(k);
-                    if matches!(catch_unwind(AssertUnwindSafe(|| c.run())), Ok(Some((p, _))) if p == prop) {
+                    if matches!(catch_unwind(AssertUnwindSafe(|| c.run())), Ok(Some((p, _))) if p == prop || (prop == "C17" && p == "C08")) {
                         cur = c;
                         progress = true;
                         break;
@@ -546,7 +547,7 @@ fn main() {
             if prop == "C08" || prop == "C09" || prop == "C17" {
                 match Hist::from_text(&text) {
                     Ok(c) => match c.run() {
-                        Some((p, w)) if p == prop => {
+                        Some((p, w)) if p == prop || (prop == "C17" && p == "C08") => {
                             println!("FAIL {}", w);
                             std::process::exit(1);
                         }
